@@ -143,6 +143,17 @@ func genControlFiles(r *core.Rand, controlText string) []tarEnt {
 	others := []tarEnt{{Name: "./md5sums", Type: tar.TypeReg, Data: []byte("d41d8cd98f00b204e9800998ecf8427e  usr/file\n"), Mode: 0o644},
 		{Name: "./postinst", Type: tar.TypeReg, Data: []byte("#!/bin/sh\nexit 0\n"), Mode: 0o755},
 		{Name: "./conffiles", Type: tar.TypeReg, Data: []byte("/etc/foo.conf\n"), Mode: 0o644}}
+	if r.Chance(1, 3) { // a large md5sums in front pushes ./control across decompressor block boundaries
+		var sb strings.Builder
+		target := r.Pick3(20000, 40000, 66000, 131000)
+		if r.Bool() { // aligned so that ./control (one 512-byte tar block or more) straddles a 32 KiB multiple
+			target = 32768*r.Pick3(1, 2, 3, 4) - 1536 - r.Intn(400)
+		}
+		for sb.Len() < target-47 {
+			sb.WriteString(r.Str("0123456789abcdef", 32) + "  usr/share/doc/" + r.Str("abcdefgh", 12) + "\n")
+		}
+		others[0].Data = []byte(sb.String())
+	}
 	others = others[:r.Range(0, 3)]
 	pos := r.Range(0, len(others))
 	var out []tarEnt
